@@ -587,6 +587,161 @@ def unit_evaluator_glue():
     return out
 
 
+REPLAY_INTERP = common.REPLAY_HEADER + '''
+common.use_repo_with_build()
+import types
+import numpy as np
+from pysph.base.utils import get_particle_array
+from pysph.tools.interpolator import Interpolator
+n_real, n_ghost, has_prop = %(n_real)d, %(n_ghost)d, %(has_prop)r
+def mk(name, n_real, n_ghost, has_prop, base):
+    n = n_real + n_ghost
+    pa = get_particle_array(name=name, x=np.arange(n, dtype=float),
+                            temp_prop=-7.0 * np.ones(n))
+    if has_prop:
+        pa.add_property("q", data=base + np.arange(n))
+    pa.tag[n_real:] = 2
+    pa.align_particles()
+    return pa
+arrays = [mk("a", n_real, n_ghost, has_prop, 10.0), mk("b", 1, 1, True, 20.0)]
+ip = Interpolator.__new__(Interpolator)
+ip.particle_arrays = arrays
+ip.method = "shepard"
+ip.shape = (1,)
+ip.pa = types.SimpleNamespace(prop=np.zeros(1))
+seen = []
+ip.func_eval = types.SimpleNamespace(
+    compute=lambda t, dt: seen.append([pa.get("temp_prop", only_real_particles=False).copy() for pa in arrays]))
+ip.interpolate("q")
+bad = None
+if len(seen) != 1:
+    bad = "the evaluator ran %%d times" %% len(seen)
+else:
+    for pa, got in zip(arrays, seen[0]):
+        n = pa.get_number_of_particles()
+        want = pa.get("q", only_real_particles=False) if "q" in pa.properties else np.zeros(n)
+        if not np.array_equal(got, want):
+            bad = "sources of %%s seen by the evaluator carry %%r, the field is %%r (tags %%r)" %% (pa.name, got.tolist(), want.tolist(), pa.tag.tolist())
+sys.exit(common.replay_exit(bad))
+'''
+
+
+class _View(object):
+    """numpy-like view on a slice of a python list of solver terms"""
+
+    def __init__(self, store, n):
+        self.store, self.n = store, n
+
+    def __len__(self):
+        return self.n
+
+    def __setitem__(self, key, data):
+        if key != slice(None, None, None):
+            raise TypeError("only [:] assignments are modelled")
+        if isinstance(data, _View):
+            if data.n != self.n:
+                raise ValueError("could not broadcast input array from "
+                                 "shape (%d,) into shape (%d,)" %
+                                 (data.n, self.n))
+            self.store[:self.n] = data.store[:self.n]
+        else:
+            self.store[:self.n] = [z3.RealVal(data)] * self.n
+
+
+class _Arr(object):
+    def __init__(self, name, n_real, n_ghost, props):
+        self.name, self.n_real, self.n = name, n_real, n_real + n_ghost
+        self.properties = {p_: [z3.Real("%s_%s_%d" % (name, p_, i))
+                                for i in range(self.n)] for p_ in props}
+
+    def get(self, prop, only_real_particles=True):
+        return _View(self.properties[prop],
+                     self.n_real if only_real_particles else self.n)
+
+
+def unit_interpolate_glue():
+    """Interpolator.interpolate: the real method copies the requested field
+    into temp_prop of every source particle - ghost/remote ones included,
+    they contribute to the documented sums - (or 0 where the array lacks
+    the field) before the evaluator runs exactly once.  Field values are
+    uninterpreted reals; z3 decides equality per particle."""
+    import types
+    common.use_repo_with_build()
+    from pysph.tools.interpolator import Interpolator
+    from vf.symx import Stats
+    out = dict(unit="Interpolator.interpolate (field copy, real+ghost "
+               "sources, with/without the field)", obligations=0,
+               discharged=0, undecided=[])
+    q = dict(unsat=0, sat=0, unknown=0)
+    ncex = 0
+    for n_real in (0, 1, 2):
+        for n_ghost in (0, 1, 2):
+            for has_prop in (True, False):
+                a = _Arr("a", n_real, n_ghost,
+                         ["q", "temp_prop"] if has_prop else ["temp_prop"])
+                b = _Arr("b", 1, 1, ["q", "temp_prop"])
+                field = {x.name: list(x.properties.get("q", [])) for x in
+                         (a, b)}
+                ip = Interpolator.__new__(Interpolator)
+                ip.particle_arrays = [a, b]
+                ip.method = "shepard"
+                ip.shape = (1,)
+                import numpy as np
+                ip.pa = types.SimpleNamespace(prop=np.zeros(1))
+                seen = []
+                ip.func_eval = types.SimpleNamespace(
+                    compute=lambda t, dt: seen.append(
+                        {x.name: list(x.properties["temp_prop"])
+                         for x in (a, b)}))
+                what = "n_real=%d n_ghost=%d field %s" % (
+                    n_real, n_ghost, "present" if has_prop else "absent")
+                out["obligations"] += 1
+                try:
+                    ip.interpolate("q")
+                except Exception as e:
+                    terms = None
+                    err = repr(e)
+                if len(seen) == 1:
+                    terms = []
+                    for x in (a, b):
+                        want = field[x.name] or [z3.RealVal(0)] * x.n
+                        terms += [t_ == w for t_, w in
+                                  zip(seen[0][x.name], want)]
+                    sv = z3.Solver()
+                    sv.set("timeout", 10000)
+                    sv.add(z3.Not(z3.And(*terms)) if terms else
+                           z3.BoolVal(False))
+                    r = str(sv.check())
+                    q[r if r in q else "unknown"] += 1
+                else:
+                    r = "sat"
+                    q["sat"] += 1
+                if r == "unsat":
+                    out["discharged"] += 1
+                elif r == "sat":
+                    ncex += 1
+                    p = common.write_replay(
+                        PID, "interpolate_glue_%d" % ncex,
+                        REPLAY_INTERP % dict(n_real=n_real, n_ghost=n_ghost,
+                                             has_prop=has_prop))
+                    common.triage(PID, out, "Interpolator.interpolate, %s: "
+                                  "every source particle carries the field "
+                                  "when the evaluator runs" % what, p,
+                                  dict(unit="Interpolator.interpolate"))
+                    if ncex >= 2:
+                        break
+                else:
+                    out["undecided"].append(what)
+            if ncex >= 2:
+                break
+        if ncex >= 2:
+            break
+    st = Stats().as_dict()
+    st["queries"] = q
+    out["stats"] = st
+    return out
+
+
 def main():
     t = common.tier()
     common.use_repo_with_build()
@@ -604,7 +759,9 @@ def main():
                 rep.functions.append(common.func_ref(getattr(C, m)))
     layouts = [(0,), (1,), (2,), (1, 1)] if t == "quick" else \
         [(0,), (1,), (2,), (3,), (1, 1), (2, 1)]
-    units = [("vf.props.c14", "unit_evaluator_glue", {})]
+    units = [("vf.props.c14", "unit_evaluator_glue", {}),
+             ("vf.props.c14", "unit_interpolate_glue", {})]
+    rep.functions.append(common.func_ref(I.Interpolator.interpolate))
     for m in METHODS:
         for lay in layouts:
             units.append(("vf.props.c14", "unit_simple",
@@ -628,7 +785,8 @@ def main():
         "generated code does the same)",
         "the order1 linear solve is checked on well-scaled non-singular "
         "moment matrices (C13's class)"]
-    rep.outside = ["Interpolator's Python glue (set_interpolation_points, "
+    rep.outside = ["Interpolator's Python glue other than interpolate()'s "
+                   "field copy (set_interpolation_points, "
                    "update_particle_arrays, NNPS rebinding) which only runs "
                    "through compiled evaluators", "automatic grids, periodic "
                    "domains", "order1 linear solve in 3-D (4x4 Gauss-Jordan "
